@@ -1,0 +1,164 @@
+//go:build verif
+
+// Verification hooks for property C03 (cell storage is a last-writer-wins map
+// over the grid). Compiled only with `-tags verif`; adds code, changes none.
+
+package excelize
+
+import (
+	"fmt"
+	"strconv"
+	"strings"
+)
+
+// verifC03SST returns the raw stored text of shared string item idx.
+func verifC03SST(f *File, v string) string {
+	idx, err := strconv.Atoi(strings.TrimSpace(v))
+	if err != nil {
+		return "!" + verifHex(v)
+	}
+	sst, err := f.sharedStringsReader()
+	if err != nil || idx < 0 || idx >= len(sst.SI) {
+		return "!" + verifHex(v)
+	}
+	si := sst.SI[idx]
+	if si.T != nil {
+		return "S" + verifHex(si.T.Val)
+	}
+	var b strings.Builder
+	for _, r := range si.R {
+		if r.T != nil {
+			b.WriteString(r.T.Val)
+		}
+	}
+	return "R" + verifHex(b.String())
+}
+
+// verifC03Cell renders the stored content of one cell canonically:
+// <style>,<type>,<value>,<inline string>,<formula>
+func verifC03Cell(f *File, c *xlsxC) string {
+	t := c.T
+	if t == "" {
+		t = "~"
+	}
+	v := verifHex(c.V)
+	if c.T == "s" && c.V != "" {
+		v = verifC03SST(f, c.V)
+	}
+	is := "~"
+	if c.IS != nil {
+		if c.IS.T != nil {
+			is = verifHex(c.IS.T.Val)
+		} else {
+			is = "R" + verifHex(c.IS.String())
+		}
+	}
+	fs := "~"
+	if c.F != nil {
+		fs = verifHex(c.F.Content)
+		if c.F.T != "" {
+			fs = c.F.T + "." + fs
+		}
+	}
+	return fmt.Sprintf("%d,%s,%s,%s,%s", c.S, t, v, is, fs)
+}
+
+// VerifC03Dump prints the internal dense grid of a worksheet: number of row
+// slots, whether the representation invariant holds (row slot i holds r=i+1,
+// cell slot j of it holds the reference of (j+1,i+1)), every row slot that has
+// cell slots (with the non-blank cells and their stored references), and the
+// merge list with both the Ref text and the cached rect of every entry.
+func VerifC03Dump(f *File, sheet string) string {
+	ws, err := f.workSheetReader(sheet)
+	if err != nil {
+		return "ERR"
+	}
+	var b strings.Builder
+	dense := 1
+	for i := range ws.SheetData.Row {
+		row := &ws.SheetData.Row[i]
+		if row.R != i+1 {
+			dense = 0
+		}
+		if len(row.C) == 0 && row.S == 0 {
+			continue
+		}
+		fmt.Fprintf(&b, " |%d:%d:%d", row.R, row.S, len(row.C))
+		for j := range row.C {
+			c := &row.C[j]
+			name, _ := CoordinatesToCellName(j+1, i+1)
+			if c.R != name {
+				dense = 0
+			}
+			if c.hasValue() || c.IS != nil {
+				fmt.Fprintf(&b, " %s=%s", c.R, verifC03Cell(f, c))
+			}
+		}
+	}
+	var m strings.Builder
+	if ws.MergeCells != nil {
+		for i, mc := range ws.MergeCells.Cells {
+			if i > 0 {
+				m.WriteString(";")
+			}
+			if mc == nil {
+				m.WriteString("nil")
+				continue
+			}
+			m.WriteString(mc.Ref)
+			m.WriteString("@")
+			if mc.rect == nil {
+				m.WriteString("nil")
+			} else {
+				for k, x := range mc.rect {
+					if k > 0 {
+						m.WriteString(".")
+					}
+					m.WriteString(strconv.Itoa(x))
+				}
+			}
+		}
+	}
+	return fmt.Sprintf("rows=%d dense=%d%s M=%s", len(ws.SheetData.Row), dense, b.String(), m.String())
+}
+
+// VerifC03GetCell runs the real getter workflow (getCellStringFunc: merge
+// redirect, row search by number, cell search by reference string) and returns
+// the canonical content of the cell it finds, or "none".
+func VerifC03GetCell(f *File, sheet, cell string) (string, error) {
+	found := false
+	s, err := f.getCellStringFunc(sheet, cell, func(x *xlsxWorksheet, c *xlsxC) (string, bool, error) {
+		found = true
+		return c.R + "=" + verifC03Cell(f, c), true, nil
+	})
+	if err != nil {
+		return "", err
+	}
+	if !found {
+		return "none", nil
+	}
+	return s, nil
+}
+
+// VerifC03Anchor exposes mergeCellsParser (the redirect of a cell reference to
+// the top-left cell of the merged range containing it).
+func VerifC03Anchor(f *File, sheet, cell string) (string, error) {
+	ws, err := f.workSheetReader(sheet)
+	if err != nil {
+		return "", err
+	}
+	return ws.mergeCellsParser(cell)
+}
+
+// VerifC03MergeOverlap runs mergeOverlapCells on the worksheet's merge list
+// (what GetMergeCells and UnmergeCell do first) without reading cell values.
+func VerifC03MergeOverlap(f *File, sheet string) error {
+	ws, err := f.workSheetReader(sheet)
+	if err != nil {
+		return err
+	}
+	if ws.MergeCells == nil {
+		return nil
+	}
+	return f.mergeOverlapCells(ws)
+}
